@@ -376,9 +376,12 @@ def gen_cases(ctx):
     K = 16
     for kind in ('openapi-3.1', 'openrpc'):
         for atoms in ((7, 2), (7, 5)) + (() if ctx.quick else ((2, 7), (5, 7), (7, 2, 5))):
+            if ctx.quick and kind == 'openapi-3.1' and atoms != (7, 2):
+                continue          # quick: one OpenAPI pair (a schedule costs ~0.1 s there), both OpenRPC pairs
             for k in range(K):
-                # (two preemptions: one thread is interrupted, the other starts and is interrupted in turn)
-                yield dict(set='threads', kind=kind, atoms=list(atoms), budget=2, shard=(k, K, 1))
+                # (two preemptions: one thread is interrupted, the other starts and is interrupted in turn; the subtrees below the
+                # second preemption are dealt to the shards one by one, which balances them)
+                yield dict(set='threads', kind=kind, atoms=list(atoms), budget=2, shard=(k, K, 2))
     xs = list(range(len(CORE), len(COREX)))
     for stack in ('pydantic', 'docstring', 'docstring+pydantic', 'default'):
         for kind in KINDS:
